@@ -37,6 +37,8 @@ def ev_bool(it: Interp, fi: FuncInfo, args: list[Any], rule: str) -> Any:
 
 
 def check(pm: ProgramModel, ctx: Ctx) -> None:
+    from .. import card as _card
+    _card.PM[:] = [pm]                    # abstract relations are built through Relation.__init__ (evaluated from source)
     ctx.explanation = (
         "Static decision of the structural clauses of C03: the six relation-kind predicates, read "
         "as formulas over (card_min, card_max, #children), partition the well-formed cardinality "
